@@ -2,6 +2,7 @@ package props
 
 import (
 	"fmt"
+	"slices"
 	"sort"
 	"strings"
 	"testing"
@@ -19,6 +20,81 @@ func cBasic(c *stat.Collector, rt stat.Fataler, prop string, plan cPlan, run cRu
 	}
 	if run.Res.Leak {
 		c.Fail(rt, prop+".no-leak", run.Res.String(), plan)
+	}
+}
+
+// cErrorsHaveCause: a failed or aborted request is not cached. The only failures of these plans are connection
+// losses at known instants and cancelled contexts, so a read that returns an error must have been pending when a
+// connection loss happened (or be a context error in a plan with cancellations): an error served later, with nothing
+// failing during the call, is a failure that was kept in the cache.
+func cErrorsHaveCause(c *stat.Collector, rt stat.Fataler, prop string, plan cPlan, run cRun) {
+	keysOf := func(r *cRead) []string { return plan.Callers[r.Caller][r.Op].Keys }
+	caused := map[*cRead]bool{}
+	var failed []*cRead
+	for _, r := range run.Reads {
+		if r.Err == nil {
+			continue
+		}
+		if isCtxErr(r.Err) {
+			if !cHasCancel(plan) {
+				c.Fail(rt, prop+".error-has-cause", fmt.Sprintf("caller %d op %d key %s returned %v although no context of the plan is ever cancelled", r.Caller, r.Op, r.Key, r.Err), plan)
+			}
+			continue
+		}
+		failed = append(failed, r)
+		for _, a := range run.Aborts {
+			// the server refused a fetch of one of the call's keys while the call was pending
+			if a.AtUs >= r.StartUs-1 && a.AtUs <= r.EndUs+1 && slices.Contains(keysOf(r), a.Key) {
+				caused[r] = true
+			}
+		}
+		for _, w := range run.Writes {
+			if w.Kind != "kill-conns" {
+				continue
+			}
+			if w.AtUs >= r.StartUs-1 && w.AtUs <= r.EndUs+1 {
+				caused[r] = true
+			}
+			// an idle connection in synchronous mode learns that it is dead from the next call that uses it:
+			// the first call(s) after a loss may fail, i.e. when no call has completed between the loss and this one
+			if w.AtUs < r.StartUs {
+				discoverer := true
+				for _, o := range run.Reads {
+					if o != r && o.EndUs > w.AtUs && o.EndUs < r.StartUs {
+						discoverer = false
+					}
+				}
+				if discoverer {
+					caused[r] = true
+				}
+			}
+		}
+	}
+	// A request is in flight until the call that owns it returns (a batch waits for all its transactions), and whoever
+	// reads one of its keys meanwhile waits for it and shares its error: propagate along overlapping failed calls.
+	for changed := true; changed; {
+		changed = false
+		for _, r := range failed {
+			if caused[r] {
+				continue
+			}
+			for _, o := range failed {
+				if caused[o] && r.StartUs <= o.EndUs+1 && o.StartUs <= r.EndUs+1 {
+					shared := false
+					for _, k := range keysOf(r) {
+						shared = shared || slices.Contains(keysOf(o), k)
+					}
+					if shared {
+						caused[r], changed = true, true
+					}
+				}
+			}
+		}
+	}
+	for _, r := range failed {
+		if !caused[r] {
+			c.Fail(rt, prop+".failed-flight-not-cached", fmt.Sprintf("caller %d op %d (%s) key %s, pending during [+%dus,+%dus], returned %v although nothing failed while it (or a failed call it could have waited for) was pending: the failure of an earlier request was served again; writes: %v aborts: %v", r.Caller, r.Op, plan.Callers[r.Caller][r.Op].Kind, r.Key, r.StartUs, r.EndUs, r.Err, cWritesOf(run.Writes, r.Key), run.Aborts), plan)
+		}
 	}
 }
 
@@ -252,8 +328,8 @@ func TestVerif_C09_SingleFlight(t *testing.T) {
 	c := stat.For("C09", "single-"+queueLabel()).Rule("same histories without caller cancellation, biased to several callers reading the same keys while the first fetch is held by server latency; oracle from the server log: after a fetch of key k on the connection, the next fetch of k on that connection must be justified by something in between: an invalidating write/delete/flush/expiry of k, the client TTL of the cached entry running out, or a connection loss; every concurrent reader gets a value of that key that was current during its call; non-trivial = two callers' reads of one key overlap in time while a fetch of it is delayed")
 	defer c.Flush()
 	rapid.Check(t, func(rt *rapid.T) {
-		plan := genCachePlan(rt)
-		// many readers of few keys, no kills (a lost connection legitimately refetches)
+		plan := genCachePlanForms(rt, true)
+		// many readers of few keys
 		for ci := range plan.Callers {
 			for oi := range plan.Callers[ci] {
 				op := &plan.Callers[ci][oi]
@@ -265,6 +341,22 @@ func TestVerif_C09_SingleFlight(t *testing.T) {
 				}
 			}
 		}
+		if rapid.IntRange(0, 3).Draw(rt, "failedFlightShape") == 0 {
+			// directed shape: the connection is lost while a slow batch that names one command twice is in flight, another
+			// command on the same key is cached or in flight, and the key is read again later
+			plan.FetchLats[0] = 9000
+			first := cOp{GapUs: 0, Kind: "multi", Keys: []string{"k1", "k2", "k1"}, TTLMs: []int{60000, 60000, 60000}}
+			plan.Callers[0] = append([]cOp{first}, plan.Callers[0]...)
+			other := []cOp{{GapUs: rapid.SampledFrom([]int{0, 100, 12000}).Draw(rt, "otherAt"), Kind: "getrange", Keys: []string{"k1"}, TTLMs: []int{60000}},
+				{GapUs: rapid.SampledFrom([]int{15000, 30000}).Draw(rt, "laterAt"), Kind: "get", Keys: []string{"k1"}, TTLMs: []int{60000}}}
+			plan.Callers = append(plan.Callers, other)
+			// what fails: the connection, or only the transaction of that fetch (refused while queued, EXEC aborts)
+			if rapid.Bool().Draw(rt, "abortNotKill") {
+				plan.Ext = append(plan.Ext, cExt{AtUs: 0, Kind: "abort-fetch", Key: rapid.SampledFrom([]string{"k1", "k2"}).Draw(rt, "abortKey")})
+			} else {
+				plan.Ext = append(plan.Ext, cExt{AtUs: rapid.SampledFrom([]int{1000, 4000, 8999}).Draw(rt, "killAt"), Kind: "kill-conns"})
+			}
+		}
 		saveCase("c09", plan)
 		run := cacheRun(t, plan)
 		if run.Res.Frozen {
@@ -273,6 +365,7 @@ func TestVerif_C09_SingleFlight(t *testing.T) {
 		}
 		cBasic(c, rt, "C09", plan, run)
 		cValues(c, rt, "C09", plan, run)
+		cErrorsHaveCause(c, rt, "C09", plan, run)
 		minTTL := map[string]int{}
 		for _, ops := range plan.Callers {
 			for _, op := range ops {
@@ -294,6 +387,11 @@ func TestVerif_C09_SingleFlight(t *testing.T) {
 					continue
 				}
 				justified := ""
+				for _, ab := range run.Aborts {
+					if ab.Key == key && ab.AtUs >= a.At-1 && ab.AtUs <= b.RecvUs+1 {
+						justified = "aborted" // the first fetch was refused: nothing was cached
+					}
+				}
 				for _, w := range run.Writes {
 					if w.AtUs >= a.At-1 && w.AtUs <= b.RecvUs+1 && (w.Key == key || w.Kind == "flushall" || w.Kind == "kill-conns") {
 						justified = w.Kind
@@ -309,6 +407,13 @@ func TestVerif_C09_SingleFlight(t *testing.T) {
 				}
 				if b.RecvUs-a.At >= int64(minTTL[key])*1000 {
 					justified = "client-ttl"
+				}
+				// the client TTL runs from the start of the call that opened the flight, which may have queued for a long
+				// time before the request reached the server (and may itself have failed for another key of its batch)
+				for _, r := range run.Reads {
+					if r.Pos >= 0 && r.StartUs <= a.At && r.EndUs >= a.At && slices.Contains(plan.Callers[r.Caller][r.Op].Keys, key) && b.RecvUs-r.StartUs >= int64(minTTL[key])*1000 {
+						justified = "client-ttl"
+					}
 				}
 				if justified == "" {
 					c.Fail(rt, "C09.one-request-per-flight", fmt.Sprintf("key %s was fetched at +%dus and again at +%dus on connection %d with nothing in between that invalidates or expires the cached reply (min client TTL %d ms); writes: %v", key, a.At, b.RecvUs, a.Conn, minTTL[key], cWritesOf(run.Writes, key)), plan)
